@@ -18,7 +18,7 @@ import ast
 import re
 from functools import lru_cache
 
-from .core import inline_single_use_temporaries, unparse, walk_no_nested
+from .core import normalise_pattern, unparse, walk_no_nested
 
 NAME_MV = re.compile(r'^_[A-Z][A-Z0-9]*$')
 EXPR_MV = re.compile(r'^__[A-Z][A-Z0-9]*$')
@@ -30,7 +30,7 @@ def _parse(src: str):
     import textwrap
 
     t = ast.parse(textwrap.dedent(src))
-    inline_single_use_temporaries(t)  # same normal form as the program model (core._Normalise)
+    t = normalise_pattern(t)  # same normal form as the program model (core._Normalise)
     return t.body
 
 
